@@ -14,6 +14,9 @@ FILES = {
     "m.lp": "out(X) :- in(X), X > 1.\n",
     "k.lp": "out(X) :- in(X), not in(X+1).\n",
     "z.lp": "out(X) :- in(X), X != a.\n",
+    "B.lp": "out(X) :- in(X), X > 0.\n",
+    "a.lp": "out(X) :- in(X), not not in(X).\n",
+    "Z.ug": "input: in/1. output: out/1. assumption: forall X (in(X) -> X > 0).\n",
     "t.ug": "input: in/1. output: out/1.\n",
     "s.spec": "spec: forall X (out(X) <-> in(X) and X > 1).\n",
     "o.po": "lemma: forall X (out(X) -> in(X)).\n",
@@ -103,7 +106,7 @@ def main():
     tier = tier_from_args()
     anthem = build_anthem()
     run = Run("C20", tier)
-    run.rule = ("file sets {2 .lp}, {3 .lp}, {2 .lp, .ug}, {.spec, 1-2 .lp, .ug}, {... + .po}, {... + notes.txt, README.md}: ALL permutations of the argument list x each file given directly or via a "
+    run.rule = ("file sets {2 .lp}, {3 .lp}, {2 .lp, .ug}, {.spec, 1-2 .lp, .ug}, {... + .po}, {... + notes.txt, README.md}, {mixed-case names B.lp, a.lp, Z.ug, t.ug}: ALL permutations of the argument list x each file given directly or via a "
                 "directory (all groupings of up to two directories) for strong and external equivalence with --no-proof-search --save-problems; oracle: the emitted problem files equal those of the canonical "
                 "call whose roles come from the reference rule (extension buckets; .lp in argument order, file-name order inside a directory); swapping the two programs of a strong task maps forward onto "
                 "backward with axioms and conjectures exchanged; non-trivial = distinct emitted problem sets")
@@ -117,8 +120,11 @@ def main():
             ("external", ["m.lp", "k.lp", "t.ug"]), ("external", ["s.spec", "m.lp", "t.ug"]), ("external", ["s.spec", "m.lp", "k.lp", "t.ug"]),
             ("external", ["m.lp", "k.lp", "t.ug", "o.po"]), ("external", ["s.spec", "k.lp", "t.ug", "o.po", "notes.txt"]), ("external", ["m.lp", "k.lp", "z.lp", "t.ug", "README.md"]),
         ]
+        mixed = [("strong", ["B.lp", "a.lp"]), ("external", ["B.lp", "a.lp", "t.ug"]), ("external", ["a.lp", "B.lp", "Z.ug", "t.ug"]), ("strong", ["B.lp", "a.lp", "m.lp"])]
         if tier == "quick":
-            sets = [sets[0], sets[1], sets[4], sets[6], sets[7]]
+            sets = [sets[0], sets[1], sets[4], sets[6], sets[7]] + mixed[:3]
+        else:
+            sets = sets + mixed
         jobs = []
         cache = {}
         def canon(equiv, cargs):
